@@ -7,6 +7,7 @@ mod c02;
 mod c03;
 mod c04;
 mod c05;
+mod c07;
 mod agentkit;
 mod c08;
 mod c09;
@@ -62,6 +63,8 @@ fn run_lines() {
             "uni" => c16::uni(&mut t),
             "serve" => c16::serve(&mut t),
             "srv" => c05::serve(&mut t),
+            "ltx" => c07::ltx(&mut t),
+            "ctx" => c07::ctx(&mut t),
             "partners" => c16::partners(&mut t),
             "bcast" => c16::bcast(&mut t),
             "wire" => c09::wire(&mut t),
